@@ -137,12 +137,18 @@ pub fn family_jobs(tier: Tier, families: &[&str]) -> (Vec<Job>, serde_json::Valu
         jobs.extend(js);
         plan.insert("P".into(), pl);
     }
+    if families.contains(&"D") {
+        let (js, pl) = crate::fam_d::family_d_jobs(tier);
+        jobs.extend(js);
+        plan.insert("D".into(), pl);
+    }
     (jobs, serde_json::Value::Object(plan))
 }
 
 pub fn attribution_for(j: &Job) -> Attribution {
     match j.family {
         "S" => Attribution { value: vec!["C01", "C14"], panic: vec!["C02"], ..Attribution::standard() },
+        "D" => Attribution { expect_zero_and: true, ..Attribution::standard() },
         _ => Attribution::standard(),
     }
 }
@@ -156,6 +162,7 @@ pub fn coverage_json(fr: &FamilyRun, rule: &str, budget: &Budget) -> serde_json:
         "rule": rule,
         "samples": fr.samples,
         "programs": fr.counters.get("programs"),
+        "programs_not_compiled(reported under C05)": fr.counters.get("programs_not_compiled"),
         "programs_per_family": fr.per_family,
         "expected_value_inputs": fr.counters.get("value_inputs"),
         "expected_panic_inputs": fr.counters.get("panic_inputs"),
